@@ -33,6 +33,16 @@ def check_hw(ctx, case):
     data, axis, k = case['data'], case['axis'], case['nb_words']
     d0 = data.copy()
     model = scared.HammingWeight(nb_words=k, expected_dtype=data.dtype)
+    if data.size and gen.layout_of(case, 5) != 'C':
+        # the model object is reused: first applied to data with another length along the reduced axis (longer, then shorter)
+        ax_ = data.ndim - 1 if axis is None or axis == -1 else axis
+        longer = np.concatenate([data, data], axis=ax_)
+        shorter = np.take(data, list(range(max(1, data.shape[ax_] - 2))), axis=ax_)
+        for other in (longer, shorter):
+            try:
+                model(other, **({} if axis is None else {'axis': axis}))
+            except Exception:
+                pass
     out, _hist = gen.pure_call(case, 'HammingWeight(nb_words=%d)(data %s %s, axis=%s)' % (k, data.dtype, data.shape, axis), model, [gen.L(case, data)], {} if axis is None else {'axis': gen.npint(case, axis) if axis >= 0 else axis})
     ax = data.ndim - 1 if axis is None or axis == -1 else axis
     hw = _hw_ref(data)
